@@ -1,10 +1,175 @@
 package main
 
-import (
-	"fmt"
+// mode slot: a REAL operator.Operator survives an assembly that failed while its checkpoint was half aligned
+// (barriers of checkpoint a from a strict subset of its runners), is deployed again by the job, and must then
+// align and acknowledge checkpoint b of the new assembly.
 
+import (
+	"context"
+	"encoding/json"
+	"fmt"
+	"os"
+	"sync"
+	"time"
+
+	"reduction.dev/reduction-protocol/handlerpb"
+	"reduction.dev/reduction/batching"
+	"reduction.dev/reduction/connectors/embedded"
+	"reduction.dev/reduction/proto"
+	"reduction.dev/reduction/proto/jobpb"
+	"reduction.dev/reduction/proto/snapshotpb"
+	"reduction.dev/reduction/proto/workerpb"
+	"reduction.dev/reduction/workers/operator"
 	"verifharness/hx"
 )
 
-func executeSlot(c *hx.Case) (*hx.Result, error) { return nil, fmt.Errorf("slot mode not built yet") }
-func genSlot(tier string, r *hx.Rand) []*hx.Case { return nil }
+type slotOp struct {
+	Runners int   `json:"runners"` // number of upstream source runners
+	A       int   `json:"a"`       // id of the interrupted checkpoint
+	First   []int `json:"first"`   // runners whose barrier of a arrives before the failure (distinct, strict subset)
+	B       int   `json:"b"`       // id of the checkpoint of the new assembly
+	Second  []int `json:"second"`  // order in which the barriers of b arrive (a permutation of the runners)
+}
+
+type slotJob struct {
+	proto.UnimplementedJob
+	mu   sync.Mutex
+	acks []uint64
+}
+
+func (j *slotJob) RegisterOperator(context.Context, *jobpb.NodeIdentity) error   { return nil }
+func (j *slotJob) DeregisterOperator(context.Context, *jobpb.NodeIdentity) error { return nil }
+func (j *slotJob) OperatorCheckpointComplete(ctx context.Context, req *snapshotpb.OperatorCheckpoint) error {
+	j.mu.Lock()
+	j.acks = append(j.acks, req.CheckpointId)
+	j.mu.Unlock()
+	return nil
+}
+
+type nopHandler struct{}
+
+func (nopHandler) KeyEventBatch(context.Context, [][]byte) ([][]*handlerpb.KeyedEvent, error) {
+	return nil, nil
+}
+func (nopHandler) ProcessEventBatch(context.Context, *handlerpb.ProcessEventBatchRequest) (*handlerpb.ProcessEventBatchResponse, error) {
+	return &handlerpb.ProcessEventBatchResponse{}, nil
+}
+
+func genSlot(tier string, r *hx.Rand) []*hx.Case {
+	n := 12
+	if tier == "thorough" {
+		n = 60
+	}
+	var cs []*hx.Case
+	for i := 0; i < n; i++ {
+		k := r.Range(1, 3)
+		perm := make([]int, k)
+		for j := range perm {
+			perm[j] = j
+		}
+		hx.Shuffle(r, perm)
+		nf := r.Intn(k) // strict subset, possibly empty
+		if k > 1 && r.Chance(2, 3) {
+			nf = r.Range(1, k-1)
+		}
+		first := append([]int{}, perm[:nf]...)
+		hx.Shuffle(r, perm)
+		a := r.Range(1, 5)
+		op := slotOp{Runners: k, A: a, First: first, B: a + r.Range(1, 2), Second: append([]int{}, perm...)}
+		cs = append(cs, &hx.Case{Name: fmt.Sprintf("slot-%d", i), Params: map[string]any{"mode": "slot"}, Ops: []json.RawMessage{hx.Op(op)}})
+	}
+	return cs
+}
+
+func executeSlot(c *hx.Case) (*hx.Result, error) {
+	if len(c.Ops) == 0 {
+		return &hx.Result{Term: "(SlotCase (@nil N) 1 (@nil N) (@nil N) 2 (@nil N) (@nil N))", Tags: []string{"empty"}}, nil
+	}
+	var so slotOp
+	if err := json.Unmarshal(c.Ops[0], &so); err != nil {
+		return nil, err
+	}
+	dir, err := os.MkdirTemp("", "verif-c15-slot-")
+	if err != nil {
+		return nil, err
+	}
+	defer os.RemoveAll(dir)
+	job := &slotJob{}
+	opr := operator.NewOperator(operator.NewOperatorParams{ID: "op0", Job: job, UserHandler: nopHandler{},
+		EventBatching: batching.EventBatcherParams{MaxSize: 4, MaxDelay: time.Hour}})
+	ctx, cancel := context.WithCancel(context.Background())
+	stopped := make(chan struct{})
+	srIDs := make([]string, so.Runners)
+	for i := range srIDs {
+		srIDs[i] = fmt.Sprintf("r%d", i)
+	}
+	deploy := func() error {
+		return opr.HandleDeploy(ctx, &workerpb.DeployOperatorRequest{
+			Operators: []*jobpb.NodeIdentity{{Id: "op0", Host: "h"}}, SourceRunnerIds: srIDs, KeyGroupCount: keyGroups, StorageLocation: dir,
+		}, &embedded.RecordingSink{})
+	}
+	// the operator's Start closes its database when it stops: deploy first so that one exists
+	if err := deploy(); err != nil {
+		cancel()
+		return nil, err
+	}
+	go func() { opr.Start(ctx); close(stopped) }()
+	defer func() {
+		cancel()
+		select {
+		case <-stopped:
+		case <-time.After(waitFor):
+		}
+	}()
+	// result of one barrier: 0 registered, 1 rejected, 2 completed the checkpoint (ack sent to the job), 3 no answer (parked)
+	barrier := func(sender int, id int) uint64 {
+		job.mu.Lock()
+		before := len(job.acks)
+		job.mu.Unlock()
+		ret := make(chan error, 1)
+		go func() {
+			ret <- opr.HandleEvent(ctx, srIDs[sender], &workerpb.Event{Event: &workerpb.Event_CheckpointBarrier{
+				CheckpointBarrier: &workerpb.CheckpointBarrier{CheckpointId: uint64(id)}}})
+		}()
+		select {
+		case err := <-ret:
+			if err != nil {
+				return 1
+			}
+			job.mu.Lock()
+			defer job.mu.Unlock()
+			if len(job.acks) > before && job.acks[len(job.acks)-1] == uint64(id) {
+				return 2
+			}
+			return 0
+		case <-time.After(waitFor):
+			return 3
+		}
+	}
+	// the operator handles events only once its loop runs and it is Ready; HandleEvent answers Unavailable before
+	var r1, r2 []uint64
+	for _, s := range so.First {
+		r1 = append(r1, barrier(s%so.Runners, so.A))
+	}
+	if err := deploy(); err != nil {
+		return nil, fmt.Errorf("second deploy: %w", err)
+	}
+	for _, s := range so.Second {
+		r2 = append(r2, barrier(s%so.Runners, so.B))
+	}
+	conv := func(xs []int) []uint64 {
+		out := make([]uint64, len(xs))
+		for i, x := range xs {
+			out[i] = uint64(x % so.Runners)
+		}
+		return out
+	}
+	runners := make([]uint64, so.Runners)
+	for i := range runners {
+		runners[i] = uint64(i)
+	}
+	tags := []string{fmt.Sprintf("runners=%d", so.Runners), fmt.Sprintf("barriers-before-redeploy=%d", len(so.First))}
+	term := fmt.Sprintf("(SlotCase %s %d %s %s %d %s %s)", nlist(runners), so.A, nlist(conv(so.First)), nlist(r1), so.B, nlist(conv(so.Second)), nlist(r2))
+	return &hx.Result{Term: term, Nontrivial: len(so.First) > 0, Tags: tags,
+		Observed: map[string]any{"first_results": r1, "second_results": r2}}, nil
+}
